@@ -35,6 +35,7 @@ class TranslateError(Exception):
 # tokenizer
 TOK = re.compile(r"""
     (?P<ws>\s+|//[^\n]*|/\*.*?\*/)
+  | (?P<str>"(?:[^"\\]|\\.)*")
   | (?P<num>\d[\d_]*(?:usize|u32|u64|i64|isize)?)
   | (?P<id>[A-Za-z_][A-Za-z_0-9]*!?)
   | (?P<op>::|->|=>|==|!=|<=|>=|&&|\|\||>>|<<|[-+*/%<>=!&|^.,;:(){}\[\]#?'])
@@ -481,6 +482,48 @@ CORE = [
     ("glwe_automorphism_tmp_bytes", CO + "automorphism/glwe_ct.rs", "trait GLWEAutomorphismDefault", "glwe_automorphism_tmp_bytes_default", MOD),
     ("glwe_trace_assign_same_radix_tmp_bytes", CO + "glwe_trace.rs", "trait GLWETraceDefault", "glwe_trace_assign_same_radix_tmp_bytes", MOD),
     ("glwe_trace_tmp_bytes", CO + "glwe_trace.rs", "trait GLWETraceDefault", "glwe_trace_tmp_bytes_default", MOD),
+    ("glwe_pack_tmp_bytes_for_input", CO + "glwe_packing.rs", "trait GLWEPackingDefault", "glwe_pack_tmp_bytes_for_input", MOD),
+    ("glwe_pack_tmp_bytes", CO + "glwe_packing.rs", "trait GLWEPackingDefault", "glwe_pack_tmp_bytes_default", MOD),
+    ("glwe_from_lwe_tmp_bytes", CO + "conversion/lwe_to_glwe.rs", "trait GLWEFromLWEDefault", "glwe_from_lwe_tmp_bytes_default", MOD),
+    ("lwe_from_glwe_tmp_bytes", CO + "api/conversion.rs", "trait LWEFromGLWE", "lwe_from_glwe_tmp_bytes", MOD),
+    ("lwe_keyswitch_tmp_bytes", CO + "api/keyswitching.rs", "trait LWEKeySwitch", "lwe_keyswitch_tmp_bytes", MOD),
+    ("GLWEPlaintext_bytes_of", CO + "layouts/glwe_plaintext.rs", "impl GLWEPlaintext<Vec<u8>>", "bytes_of", FREE),
+    ("GLWEPlaintext_bytes_of_from_infos", CO + "layouts/glwe_plaintext.rs", "impl GLWEPlaintext<Vec<u8>>", "bytes_of_from_infos", FREE),
+    ("GLWESecret_bytes_of", CO + "layouts/glwe_secret.rs", "impl GLWESecret<Vec<u8>>", "bytes_of", FREE),
+    ("GLWESecret_bytes_of_from_infos", CO + "layouts/glwe_secret.rs", "impl GLWESecret<Vec<u8>>", "bytes_of_from_infos", FREE),
+    ("GLWESecretTensor_pairs", CO + "layouts/glwe_secret_tensor.rs", "impl GLWESecretTensor<Vec<u8>>", "pairs", FREE),
+    ("GLWESecretTensor_bytes_of", CO + "layouts/glwe_secret_tensor.rs", "impl GLWESecretTensor<Vec<u8>>", "bytes_of", FREE),
+    ("GLWESecretTensor_bytes_of_from_infos", CO + "layouts/glwe_secret_tensor.rs", "impl GLWESecretTensor<Vec<u8>>", "bytes_of_from_infos", FREE),
+    ("glwe_secret_prepared_bytes_of", CO + "layouts/prepared/glwe_secret.rs", "trait GLWESecretPreparedFactory", "glwe_secret_prepared_bytes_of", MOD),
+    ("glwe_secret_prepared_bytes_of_from_infos", CO + "layouts/prepared/glwe_secret.rs", "trait GLWESecretPreparedFactory", "glwe_secret_prepared_bytes_of_from_infos", MOD),
+    ("glwe_secret_tensor_prepare_tmp_bytes", CO + "layouts/glwe_secret_tensor.rs", "GLWESecretTensorFactory<BE> for Module", "glwe_secret_tensor_prepare_tmp_bytes", MOD),
+    ("gglwe_encrypt_sk_tmp_bytes", CO + "encryption/gglwe.rs", "GGLWEEncryptSkDefault<BE> for Module", "gglwe_encrypt_sk_tmp_bytes", MOD),
+    ("ggsw_encrypt_sk_tmp_bytes", CO + "encryption/ggsw.rs", "GGSWEncryptSkDefault<BE> for Module", "ggsw_encrypt_sk_tmp_bytes", MOD),
+    ("glwe_switching_key_encrypt_sk_tmp_bytes", CO + "encryption/glwe_switching_key.rs", "GLWESwitchingKeyEncryptSkDefault<BE> for Module", "glwe_switching_key_encrypt_sk_tmp_bytes", MOD),
+    ("glwe_automorphism_key_encrypt_sk_tmp_bytes", CO + "encryption/glwe_automorphism_key.rs", "GLWEAutomorphismKeyEncryptSkDefault<BE> for Module", "glwe_automorphism_key_encrypt_sk_tmp_bytes", MOD),
+    ("glwe_tensor_key_encrypt_sk_tmp_bytes", CO + "encryption/glwe_tensor_key.rs", "GLWETensorKeyEncryptSkDefault<BE> for Module", "glwe_tensor_key_encrypt_sk_tmp_bytes", MOD),
+    ("gglwe_to_ggsw_key_encrypt_sk_tmp_bytes", CO + "encryption/gglwe_to_ggsw_key.rs", "GGLWEToGGSWKeyEncryptSkDefault<BE> for Module", "gglwe_to_ggsw_key_encrypt_sk_tmp_bytes", MOD),
+    ("lwe_switching_key_encrypt_sk_tmp_bytes", CO + "encryption/lwe_switching_key.rs", "LWESwitchingKeyEncryptDefault<BE> for Module", "lwe_switching_key_encrypt_sk_tmp_bytes", MOD),
+    ("glwe_to_lwe_key_encrypt_sk_tmp_bytes", CO + "encryption/glwe_to_lwe_key.rs", "GLWEToLWESwitchingKeyEncryptSkDefault<BE> for Module", "glwe_to_lwe_key_encrypt_sk_tmp_bytes", MOD),
+    ("lwe_to_glwe_key_encrypt_sk_tmp_bytes", CO + "encryption/lwe_to_glwe_key.rs", "LWEToGLWESwitchingKeyEncryptSkDefault<BE> for Module", "lwe_to_glwe_key_encrypt_sk_tmp_bytes", MOD),
+    ("glwe_compressed_encrypt_sk_tmp_bytes", CO + "encryption/compressed/glwe_ct.rs", "GLWECompressedEncryptSkDefault<BE> for Module", "glwe_compressed_encrypt_sk_tmp_bytes", MOD),
+    ("gglwe_compressed_encrypt_sk_tmp_bytes", CO + "encryption/compressed/gglwe.rs", "GGLWECompressedEncryptSkDefault<BE> for Module", "gglwe_compressed_encrypt_sk_tmp_bytes", MOD),
+    ("ggsw_compressed_encrypt_sk_tmp_bytes", CO + "encryption/compressed/ggsw.rs", "GGSWCompressedEncryptSkDefault<BE> for Module", "ggsw_compressed_encrypt_sk_tmp_bytes", MOD),
+    ("glwe_switching_key_compressed_encrypt_sk_tmp_bytes", CO + "encryption/compressed/glwe_switching_key.rs", "GLWESwitchingKeyCompressedEncryptSkDefault<BE> for Module", "glwe_switching_key_compressed_encrypt_sk_tmp_bytes", MOD),
+    ("glwe_automorphism_key_compressed_encrypt_sk_tmp_bytes", CO + "encryption/compressed/glwe_automorphism_key.rs", "GLWEAutomorphismKeyCompressedEncryptSkDefault<BE> for Module", "glwe_automorphism_key_compressed_encrypt_sk_tmp_bytes", MOD),
+    ("glwe_tensor_key_compressed_encrypt_sk_tmp_bytes", CO + "encryption/compressed/glwe_tensor_key.rs", "GLWETensorKeyCompressedEncryptSkDefault<BE> for Module", "glwe_tensor_key_compressed_encrypt_sk_tmp_bytes", MOD),
+    ("gglwe_to_ggsw_key_compressed_encrypt_sk_tmp_bytes", CO + "encryption/compressed/gglwe_to_ggsw_key.rs", "GGLWEToGGSWKeyCompressedEncryptSkDefault<BE> for Module", "gglwe_to_ggsw_key_encrypt_sk_tmp_bytes", MOD),
+    ("cmux_tmp_bytes", "poulpy-bin-fhe/src/bdd_arithmetic/eval.rs", "trait Cmux", "cmux_tmp_bytes", MOD),
+    ("normalize_input_limb_bound", CO + "operations/glwe.rs", None, "normalize_input_limb_bound", FREE),
+    ("normalize_input_limb_bound_worst_case", CO + "operations/glwe.rs", None, "normalize_input_limb_bound_worst_case", FREE),
+    ("glwe_mul_plain_tmp_bytes", CO + "operations/glwe.rs", "GLWEMulPlainDefault<BE> for Module", "glwe_mul_plain_tmp_bytes", MOD),
+    ("glwe_tensor_square_apply_tmp_bytes", CO + "operations/glwe.rs", "GLWETensoringDefault<BE> for Module", "glwe_tensor_square_apply_tmp_bytes", MOD),
+    ("glwe_tensor_apply_tmp_bytes", CO + "operations/glwe.rs", "GLWETensoringDefault<BE> for Module", "glwe_tensor_apply_tmp_bytes", MOD),
+    ("glwe_tensor_relinearize_tmp_bytes", CO + "operations/glwe.rs", "GLWETensoringDefault<BE> for Module", "glwe_tensor_relinearize_tmp_bytes", MOD),
+    ("ggsw_expand_rows_tmp_bytes", CO + "conversion/gglwe_to_ggsw.rs", "trait GGSWExpandRowsDefault", "ggsw_expand_rows_tmp_bytes_default", MOD),
+    ("ggsw_from_gglwe_tmp_bytes", CO + "conversion/gglwe_to_ggsw.rs", "trait GGSWFromGGLWEDefault", "ggsw_from_gglwe_tmp_bytes_default", MOD),
+    ("ggsw_keyswitch_tmp_bytes", CO + "keyswitching/ggsw.rs", "trait GGSWKeyswitchDefault", "ggsw_keyswitch_tmp_bytes_default", MOD),
+    ("ggsw_automorphism_tmp_bytes", CO + "automorphism/ggsw_ct.rs", "trait GGSWAutomorphismDefault", "ggsw_automorphism_tmp_bytes_default", MOD),
 ]
 FUNCS += CORE
 
@@ -506,6 +549,28 @@ CALLS = {
     "self.glwe_keyswitch_tmp_bytes": ("glwe_keyswitch_tmp_bytes", MOD),
     "self.glwe_external_product_internal_tmp_bytes": ("glwe_external_product_internal_tmp_bytes", MOD),
     "self.glwe_automorphism_tmp_bytes": ("glwe_automorphism_tmp_bytes", MOD),
+    "self.glwe_keyswitch_tmp_bytes_default": ("glwe_keyswitch_tmp_bytes", MOD),
+    "self.glwe_rotate_tmp_bytes": ("glwe_rotate_tmp_bytes", MOD),
+    "self.glwe_trace_tmp_bytes": ("glwe_trace_tmp_bytes", MOD),
+    "self.glwe_pack_tmp_bytes_for_input": ("glwe_pack_tmp_bytes_for_input", MOD),
+    "GLWEPlaintext::<Vec<u8>>::bytes_of_from_infos": ("GLWEPlaintext_bytes_of_from_infos", FREE),
+    "GLWESecret::bytes_of": ("GLWESecret_bytes_of", FREE), "GLWESecret::bytes_of_from_infos": ("GLWESecret_bytes_of_from_infos", FREE),
+    "GLWESecretTensor::pairs": ("GLWESecretTensor_pairs", FREE), "Self::pairs": ("GLWESecretTensor_pairs", FREE),
+    "GLWESecretTensor::bytes_of_from_infos": ("GLWESecretTensor_bytes_of_from_infos", FREE),
+    "self.glwe_secret_prepared_bytes_of": ("glwe_secret_prepared_bytes_of", MOD),
+    "self.glwe_secret_prepared_bytes_of_from_infos": ("glwe_secret_prepared_bytes_of_from_infos", MOD),
+    "self.glwe_secret_tensor_prepare_tmp_bytes": ("glwe_secret_tensor_prepare_tmp_bytes", MOD),
+    "self.glwe_encrypt_sk_tmp_bytes": ("glwe_encrypt_sk_tmp_bytes", MOD),
+    "self.gglwe_encrypt_sk_tmp_bytes": ("gglwe_encrypt_sk_tmp_bytes", MOD),
+    "self.ggsw_encrypt_sk_tmp_bytes": ("ggsw_encrypt_sk_tmp_bytes", MOD),
+    "self.gglwe_compressed_encrypt_sk_tmp_bytes": ("gglwe_compressed_encrypt_sk_tmp_bytes", MOD),
+    "self.glwe_switching_key_encrypt_sk_tmp_bytes": ("glwe_switching_key_encrypt_sk_tmp_bytes", MOD),
+    "normalize_input_limb_bound": ("normalize_input_limb_bound", FREE),
+    "normalize_input_limb_bound_worst_case": ("normalize_input_limb_bound_worst_case", FREE),
+    "self.bytes_of_cnv_pvec_left": ("hal_bytes_of_cnv_pvec_left", MOD), "self.bytes_of_cnv_pvec_right": ("hal_bytes_of_cnv_pvec_right", MOD),
+    "self.ggsw_expand_rows_tmp_bytes_default": ("ggsw_expand_rows_tmp_bytes", MOD),
+    "self.ggsw_expand_rows_tmp_bytes": ("ggsw_expand_rows_tmp_bytes", MOD),
+    "GLWE::<Vec<u8>>::bytes_of": ("GLWE_bytes_of", FREE),
     "self.glwe_trace_assign_same_radix_tmp_bytes": ("glwe_trace_assign_same_radix_tmp_bytes", MOD),
     "self.glwe_shift_tmp_bytes": ("glwe_shift_tmp_bytes", MOD),
     "self.glwe_external_product_tmp_bytes": ("glwe_external_product_tmp_bytes", MOD),
@@ -633,6 +698,8 @@ class Emit:
             g = lambda k: self.ex(f[k], ind) if k in f else "0"
             if name == "GLWELayout" and set(f) == {"n", "base2k", "k", "rank"}:
                 return f"(mk_glwe_layout {g('n')} {g('base2k')} {g('k')} {g('rank')})"
+            if name == "GGLWELayout" and set(f) == {"n", "base2k", "k", "rank_in", "rank_out", "dnum", "dsize"}:
+                return (f"(mk_gglwe_layout {g('n')} {g('base2k')} {g('k')} {g('rank_in')} {g('rank_out')} {g('dnum')} {g('dsize')})")
             self.fail(f"struct literal `{name}` with fields {sorted(f)}")
         if t == "method":
             recv, name, args = e[1], e[2], e[3]
@@ -664,6 +731,8 @@ class Emit:
                 if gen[0] == "Self::ScalarBig":
                     return "(size_of_scalar_big fam)"
                 self.fail(f"size_of::<{gen[0]}>")
+            if path in ("Rank", "Degree", "Base2K", "TorusPrecision", "Dnum", "Dsize") and not gen and len(args) == 1:
+                return self.ex(args[0], ind)
             full = path if not gen else None
             if gen:
                 # re-insert turbofish for the lookup  GLWE::<Vec<u8>>::f
@@ -741,6 +810,11 @@ def translate_fn(gname, path, container, fname, kind):
         selfname = "GLWE"
     if gname.startswith("MatZnx"):
         selfname = "MatZnx"
+    for sn in ("GLWEPlaintext", "GLWESecretTensor", "GLWESecret"):
+        if gname.startswith(sn + "_"):
+            selfname = sn
+            CALLS[sn + "::bytes_of"] = (sn + "_bytes_of", FREE)
+            break
     em = Emit(where, dict(params), selfname)
     if selfname == "GLWE":
         CALLS["GLWE::bytes_of"] = ("GLWE_bytes_of", FREE)
